@@ -183,7 +183,7 @@ def build_root():
     return d
 
 
-ZOO_TUS = [(0, 4), (4, 8), (8, 10), (10, 16), (16, 18)]
+ZOO_TUS = [(0, 4), (4, 8), (8, 10), (10, 16), (16, 19)]
 
 
 def probes(variant):
